@@ -11,6 +11,8 @@ use deno_graph::ast::CapturingModuleAnalyzer;
 use deno_graph::source::MemoryLoader;
 use deno_graph::source::Source;
 use deno_graph::symbols::DefinitionOrUnresolved;
+use deno_graph::symbols::FileDepName;
+use deno_graph::symbols::SymbolDeclKind;
 use deno_graph::symbols::ModuleInfoRef;
 use deno_graph::symbols::RootSymbol;
 use deno_graph::symbols::Symbol;
@@ -184,6 +186,50 @@ pub fn gen_sym_world(rng: &mut Rng, idx: usize) -> SymWorld {
     }
     mods.push(SymMod { url: format!("file:///m{}.ts", i), text, own, stars });
   }
+  // named imports / re-exports of names another module exports only through (chains of) star re-exports
+  {
+    let n = mods.len();
+    let mut sets: Vec<BTreeSet<String>> = mods.iter().map(|mm| mm.own.iter().cloned().collect()).collect();
+    loop {
+      let mut changed = false;
+      for a in 0..n {
+        for t in mods[a].stars.clone().iter().flatten() {
+          let add: Vec<String> = sets[*t].iter().filter(|x| x.as_str() != "default" && !sets[a].contains(*x)).cloned().collect();
+          if !add.is_empty() {
+            changed = true;
+            sets[a].extend(add);
+          }
+        }
+      }
+      if !changed {
+        break;
+      }
+    }
+    for i in 0..n {
+      for k in 0..rng.below(3) {
+        let t = rng.below(n);
+        if t == i {
+          continue;
+        }
+        // prefer names the target does not declare itself
+        let own_t: BTreeSet<&String> = mods[t].own.iter().collect();
+        let via: Vec<&String> = sets[t].iter().filter(|x| !own_t.contains(x) && x.as_str() != "default").collect();
+        let all: Vec<&String> = sets[t].iter().filter(|x| x.as_str() != "default").collect();
+        let pool = if !via.is_empty() && rng.chance(3, 4) { via } else { all };
+        if pool.is_empty() {
+          continue;
+        }
+        let name = pool[rng.below(pool.len())].clone();
+        let local = format!("v{}_{}", i, k);
+        if rng.chance(1, 2) {
+          mods[i].text.push_str(&format!("import {{ {} as {} }} from \"./m{}.ts\";\nexport {{ {} }};\n", name, local, t, local));
+        } else {
+          mods[i].text.push_str(&format!("export {{ {} as {} }} from \"./m{}.ts\";\n", name, local, t));
+        }
+        mods[i].own.push(local);
+      }
+    }
+  }
   SymWorld { mods, alias_cycle }
 }
 
@@ -353,6 +399,8 @@ pub fn child(seed: u64, idx: usize, corpus_file: Option<&str>) {
   let mut symbols_seen = 0u64;
   let mut defs = 0u64;
   let mut unresolved = 0u64;
+  let mut goto_compared = 0u64;
+  let mut goto_via_star = 0u64;
   for (mi, m) in w.mods.iter().enumerate() {
     let Ok(spec) = ModuleSpecifier::parse(&m.url) else { continue };
     let Some(module) = root.module_from_specifier(&spec) else { continue };
@@ -427,10 +475,53 @@ pub fn child(seed: u64, idx: usize, corpus_file: Option<&str>) {
     // go-to-definition from every symbol
     for symbol in module.symbols() {
       symbols_seen += 1;
+      let mut got: Vec<String> = vec![];
       for d in root.go_to_definitions_or_unresolveds(module, symbol) {
-        match d {
-          DefinitionOrUnresolved::Definition(_) => defs += 1,
+        match &d {
+          DefinitionOrUnresolved::Definition(def) => {
+            defs += 1;
+            // a definition is self-consistent: the symbol is a symbol of the module it is reported in,
+            // the declaration is one of that symbol's and its range lies inside that module's text
+            let same_symbol = def.module.symbol(def.symbol.symbol_id()).map(|x| std::ptr::eq(x, def.symbol)).unwrap_or(false);
+            let own_decl = def.symbol.decls().iter().any(|x| std::ptr::eq(x, def.symbol_decl));
+            let tr = def.module.text_info().range();
+            let inside = def.range().start >= tr.start && def.range().end <= tr.end;
+            if def.symbol.module_id() != def.module.module_id() || !same_symbol || !own_decl || !inside {
+              out_fail.push((
+                "definition-not-self-consistent".into(),
+                format!("{}: go-to-definition from symbol {:?} reports a definition in {} whose symbol/declaration/range does not belong to that module (same symbol {}, own declaration {}, range inside text {})", m.url, symbol.symbol_id(), def.module.specifier(), same_symbol, own_decl, inside),
+              ));
+            }
+          }
           DefinitionOrUnresolved::Unresolved(_) => unresolved += 1,
+        }
+        got.push(def_token(&d));
+      }
+      // a binding that names an export of another module leads where that module's export leads
+      if let [decl] = symbol.decls() {
+        if let SymbolDeclKind::FileRef(dep) = &decl.kind {
+          if let FileDepName::Name(x) = &dep.name {
+            if let Some(ts) = graph.resolve_dependency(&dep.specifier, module.specifier(), true) {
+              if let Some(tm) = root.module_from_specifier(ts) {
+                let ex = tm.exports(&root);
+                if let Some(e) = ex.resolved.get(x).map(|i| i.as_resolved_export()) {
+                  let mut want: Vec<String> = root.go_to_definitions_or_unresolveds(e.module, e.symbol()).map(|d| def_token(&d)).collect();
+                  want.sort();
+                  got.sort();
+                  goto_compared += 1;
+                  if e.module.specifier() != ts {
+                    goto_via_star += 1;
+                  }
+                  if got != want {
+                    out_fail.push((
+                      "go-to-definition-differs-from-resolved-export".into(),
+                      format!("{}: the binding of `{}` from {:?} leads to {:?}; the export `{}` of {} resolves to a symbol of {} whose definitions are {:?}\n{}", m.url, x, dep.specifier, got, x, ts, e.module.specifier(), want, m.text),
+                    ));
+                  }
+                }
+              }
+            }
+          }
         }
       }
     }
@@ -438,6 +529,8 @@ pub fn child(seed: u64, idx: usize, corpus_file: Option<&str>) {
   counts.push(("symbols".into(), symbols_seen));
   counts.push(("definitions".into(), defs));
   counts.push(("unresolved".into(), unresolved));
+  counts.push(("goto_compared_with_resolved_export".into(), goto_compared));
+  counts.push(("goto_through_star_reexport".into(), goto_via_star));
   let o = json!({
     "failures": out_fail.iter().map(|(s, w)| json!({"shape": s, "what": w})).collect::<Vec<_>>(),
     "reqs": reqs, "imps": imps,
@@ -449,6 +542,17 @@ pub fn child(seed: u64, idx: usize, corpus_file: Option<&str>) {
 }
 
 /// number of unresolvable star re-exports met by the traversal from module `m` (each module once)
+fn def_token(d: &DefinitionOrUnresolved) -> String {
+  match d {
+    DefinitionOrUnresolved::Definition(def) => {
+      let start = def.module.text_info().range().start;
+      let r = def.range().as_byte_range(start);
+      format!("def {} {}..{}", def.module.specifier(), r.start, r.end)
+    }
+    DefinitionOrUnresolved::Unresolved(u) => format!("unresolved {} {:?} {:?}", u.module.specifier(), u.kind, u.parts),
+  }
+}
+
 fn reach_unresolved(w: &SymWorld, m: usize) -> usize {
   let mut seen = HashSet::new();
   fn go(w: &SymWorld, m: usize, seen: &mut HashSet<usize>) -> usize {
